@@ -74,7 +74,9 @@ def frame_of(U, root):
         if id(n) in snap:
             continue
         vals = tuple((f.name, id(getattr(n, f.name))) for f in dataclasses.fields(n))
-        snap[id(n)] = (n, vals, n.id, n.content_id, hash(n))
+        from pyoak.node import ASTNode as _AN
+
+        snap[id(n)] = (n, vals, n.id, n.content_id, hash(n), _AN.get_any(n.id) is n)
         for f in U.child_fields(type(n).__name__):
             v = getattr(n, f.name)
             if v is None:
@@ -84,11 +86,16 @@ def frame_of(U, root):
 
 
 def frame_diff(snap):
-    for n, vals, id_, cid, h in snap.values():
+    from pyoak.node import ASTNode as _AN
+
+    for n, vals, id_, cid, h, reg in snap.values():
         now = tuple((f.name, id(getattr(n, f.name))) for f in dataclasses.fields(n))
         if now != vals or n.id != id_ or n.content_id != cid or hash(n) != h:
             changed = [a[0] for a, b in zip(vals, now) if a != b]
             return f"{type(n).__name__} {id_}: fields {changed}"
+        if reg and _AN.get_any(n.id) is not n:
+            # transforming is neither detach nor replace: a node of the input that was registered still is
+            return f"{type(n).__name__} {id_}: no longer returned by lookup under its id"
     return None
 
 
